@@ -10,6 +10,9 @@
                      AddSetSymbol, AddFkSetSymbol)  M (AddMapSymbol name key)  K (MakeSymbolPublic, aux 1 =
                      resolves through a linked store)  G (store0.GrantSymbols(store1))
          output: <npub> {hex, sorted, distinct} <nmaps> {hex, sorted, distinct} <one 0/1 per probe>
+     model_c20 seq    < seq_cases.txt one line per HISTORY of validations:
+         case  : <n> {<Y|U> <npub> {hex} <nmaps> {hex} <tree>}
+         output: <n> {<shaped 0/1> <A | R <hex>> <nall> {hex}}      (gen_validate_seq: every step answered on its own)
      model_c20 table                  prints  complete <0/1>, validator <0/1>, one `gap <kind> <field> <reason>`
                                       line per broken table obligation, one `kind <name>` line per kind *)
 (* [name] (one constructor, one field) is extracted as its content, a byte list *)
@@ -78,6 +81,33 @@ let () =
           pr (canon pub); print_string " "; pr (canon maps); print_string " ";
           if bits = [] then print_string "-" else List.iter (fun b -> print_string (bool_str b)) bits;
           print_newline ()
+        with _ -> print_endline "?"))
+  else if sub = "seq" then
+    iter_lines (fun line ->
+      match split_ws line with
+      | [] -> ()
+      | l ->
+        toks := Array.of_list l; pos := 0;
+        (try
+          let n = int_tok () in
+          let steps = repeat n (fun () ->
+            let _mode = next () in
+            let pub = hex_list () in
+            let maps = hex_list () in
+            let t = parse_tree () in
+            ((pub, maps), t)) in
+          let verdicts = gen_validate_seq steps in
+          let b = Buffer.create 256 in
+          Buffer.add_string b (string_of_int n);
+          List.iter2 (fun ((_, _), t) v ->
+            Buffer.add_string b (" " ^ bool_str (gen_shaped_b t));
+            (match v with
+             | Accept -> Buffer.add_string b " A"
+             | Reject x -> Buffer.add_string b (" R " ^ hex_of_bytes x));
+            let all = gen_all_syms t in
+            Buffer.add_string b (" " ^ string_of_int (List.length all));
+            List.iter (fun x -> Buffer.add_string b (" " ^ hex_of_bytes x)) all) steps verdicts;
+          print_endline (Buffer.contents b)
         with _ -> print_endline "?"))
   else
     iter_lines (fun line ->
